@@ -727,6 +727,8 @@ def c01(c):
     common_proof(c, "IvpModel.Props.C01", C01_THEOREMS)
     if c.build_harness() and c.build_driver():
         solve_stream(c)
+        radau_stream(c)
+        radaunum_stream(c)
         bdfnum_stream(c)
         generic_monitor(c, "accuracy_check", ["accuracy-check", c.seed, 300 if c.tier == "quick" else 6000], "ac")
     only_keys(c, ("c01",))
